@@ -23,4 +23,6 @@ def run(P, R, L):
     K.err2_iterator_status(P, R, L)
     R.clause("GRD-18", "short reads are noticed: outside the file-system layer every read is read_exact or has its byte count compared with the expected length")
     K.grd18_short_reads(P, R, L)
+    R.clause("VERD-1", "a damaged table ends a lookup with its error: Version::get never skips it in favour of an older value in a deeper level")
+    K.verd1(P, R, L, what=("version", "table"))
     R.not_decided += ["detection probability", "behaviour for a concrete flipped byte"]
